@@ -3,7 +3,8 @@
    Sem/FsCheck.v (wt_fs, unique_binders, ids_bounded), Sem/AxCheck.v, Sem/AxSem.v, Sem/CoreSem.v;
    proofs in Proof/ShrinkProof.v. *)
 From Coq Require Import List ZArith NArith String Bool.
-From SCC Require Import Lang.CoreSyn Lang.AxSyn Sem.AxSem Sem.FsCheck Sem.AxCheck Model.Shrink Proof.ShrinkProof Proof.ShrinkSem Proof.ShrinkExample.
+From SCC Require Import Sem.FsFrag2 Lang.CoreSyn Lang.AxSyn Sem.AxSem Sem.FsCheck Sem.AxCheck Model.Shrink Proof.ShrinkProof Proof.ShrinkSem Proof.ShrinkExample.
+From SCC Require Import Proof.ShrinkRn Proof.ShrinkSimProg Proof.ShrinkTyProg Proof.ShrinkSimClosed Proof.ShrinkExample2 Proof.ShrinkExample2Ok.
 From SCC Require Sem.CoreSem.
 Import ListNotations.
 
@@ -174,3 +175,63 @@ Theorem C04_example_real_program_shrinks :
   end = true.
 Proof. exact tuples_shrunk_ok. Qed.
 Print Assumptions C04_example_real_program_shrinks.
+
+(* SEMANTIC PRESERVATION FOR THE WHOLE LANGUAGE, on a fragment given by boolean predicates:
+
+     frag2_prog p = names_ok p && main_int p
+       names_ok p : in every definition, every variable occurrence is spelled like the binding its id refers
+                    to ([nc_stmt], Proof/ShrinkRn.v) - what `uniquify` establishes.  The checkers wt_fs /
+                    unique_binders, the substitution of core2axcut and its free-variable computation look at
+                    the numeric id only, the Core machine at name and id; without it the statement is FALSE
+                    (a lifted statement would pass a variable spelled unlike its binder, and the call gets
+                    stuck in a branch the Core machine never reaches).
+       main_int p : the parameters of the entry point are integer producers (what run_fs can be started on)
+     decls_ok p   : parameter types of definitions and field types of xtors are declared (needed for the
+                    typing of the output, see C12_shrink_preserves_typing_fragment2)
+
+   EVERY construct is covered: top-level calls and recursion; data types (let, switch, known cuts resolved
+   by substitution); consumers (mu~ bindings, renaming cuts, integer continuations as closures of the
+   codata type _Cont, create/invoke); eta expansion of variable cuts; critical pairs at i64, at data
+   (producer first) and at codata (consumer first, the producer re-run by name at every destructor); lifted
+   statements.  Proof: forward simulation with a typed, step-indexed relation between Core machine values and
+   AxCut values that follows the chirality collapse (Proof/ShrinkRel.v); renamings are carried as functions
+   (Proof/ShrinkRn.v); cases in Proof/ShrinkSim{A,B,C,D,E,Eta,Lift,Crit,Top}.v.
+   [good o]: the Core run ends with exit or with undefined arithmetic (stuck reasons are not compared,
+   out-of-fuel runs say nothing). *)
+Theorem C04_shrink_correct_fragment2 : forall p q n args o,
+  frag2_prog p = true -> decls_ok p = true ->
+  wt_fs p = true -> unique_binders p = true -> ids_bounded p = true ->
+  shrink_prog p = SOk q ->
+  CoreSem.run_fs n p args = o -> good o ->
+  exists m, run_named m q args = o.
+Proof. exact shrink_correct_fragment2_closed. Qed.
+Print Assumptions C04_shrink_correct_fragment2.
+
+(* the same for the larger input fragment without decls_ok, with the hypothesis that the OUTPUT passes the
+   AxCut checker (binders fresh along every path, definition names distinct) *)
+Theorem C04_shrink_correct_fragment2_wt_ax : forall p q n args o,
+  frag2_prog p = true -> wt_fs p = true -> unique_binders p = true -> ids_bounded p = true ->
+  shrink_prog p = SOk q -> wt_ax q = true ->
+  CoreSem.run_fs n p args = o -> good o ->
+  exists m, run_named m q args = o.
+Proof. exact shrink_correct_fragment2. Qed.
+Print Assumptions C04_shrink_correct_fragment2_wt_ax.
+
+(* non-vacuity: a real focused program (Proof/ShrinkExample2.v: lists, a lazy pair, recursion, two
+   critical pairs whose expanded side is LIFTED) satisfies every hypothesis; both machines run on it *)
+Theorem C04_example_fragment2 :
+  match frag2_focused with
+  | Some p =>
+      match shrink_prog p with
+      | SOk q =>
+          frag2_prog p && decls_ok p && wt_fs p && unique_binders p && ids_bounded p && wt_ax q
+          && Nat.eqb (List.length (filter (fun d => is_lifted_name (dname d)) (pdefs q))) 2
+          && existsb (fun t => negb (Nat.eqb (List.length (txtors t)) 0)) (ptypes q)
+          && obs_eqb (CoreSem.run_fs 3000 p [0%Z]) (frag2_expected 0) && obs_eqb (run_named 1000 q [0%Z]) (frag2_expected 0)
+          && obs_eqb (CoreSem.run_fs 3000 p [3%Z]) (frag2_expected 3) && obs_eqb (run_named 1000 q [3%Z]) (frag2_expected 3)
+      | SErr _ => false
+      end
+  | None => false
+  end = true.
+Proof. exact frag2_example_ok. Qed.
+Print Assumptions C04_example_fragment2.
